@@ -8,6 +8,10 @@ EXTENDS Ioapi, TraceLib
 EnfC10 == IOEnv.PNC_E_C10 = "1"
 EnfC11 == IOEnv.PNC_E_C11 = "1"
 EnfC02 == IOEnv.PNC_E_C02 = "1"
+\* C05 on IOAPI files: a call that returns a new file leaves every existing
+\* object (structure, attributes and the metadata block) as it was; only the
+\* explicit in-place edits of the driver ("delvar") may change their target
+EnfISO == IOEnv.PNC_E_ISO = "1"
 \* C02 on the time flags (they are data of the file): a selection on TSTEP picks
 \* exactly the selected records of the source's TFLAG, in the selected order
 TflagSelDiag(src, a, g) ==
@@ -53,6 +57,12 @@ TStep ==
      /\ heap' = post
      /\ (l = 0 /\ EnfC10) => \A o \in 1..Len(heap) :
           ChkS(tr, 0, "initial IOAPI object " \o ToString(o) \o " is not coherent", CoherentDiag(heap[o].f, heap[o].m))
+     /\ (EnfISO => \A o \in 1..Len(heap) :
+            (o # (IF e.act = "delvar" THEN e.src ELSE 0)) =>
+               ChkS(tr, l + 1, "C05 " \o e.act \o ": IOAPI object " \o ToString(o) \o " was modified by the call",
+                    IF post[o] = heap[o] THEN ""
+                    ELSE IF post[o].m # heap[o].m THEN "metadata block (NVARS / VAR-LIST / start / grid attributes / TFLAG)"
+                    ELSE "structure (dimensions, variables or attributes)"))
      /\ IF e.res = "raised" \/ e.new = 0 THEN TRUE
         ELSE LET g == post[e.new] src == heap[e.src] IN
           /\ ChkS(tr, l + 1, "C01 " \o e.act \o ": result not well-formed", WFDiag(g.f))
